@@ -475,6 +475,23 @@ def step(h, i):
             if owned and mutate_value(rng, v):
                 h.ctx.count("container_aliasing_probes")
                 h.ctx.table("aliasing_probe_sites", "substitute(schema, container)")
+                # the caller substitutes the *same, now mutated* object again: the outcome must be the one an equal
+                # fresh object gets (nothing may be remembered about the object's earlier contents)
+                def again(val):
+                    try:
+                        return ("ok", substitute(s, val))
+                    except RecursionError:
+                        return ("skip", None)
+                    except Exception as e:  # noqa
+                        return ("exc", e)
+                same_obj = again(v)
+                fresh_obj = again(copy.deepcopy(v))
+                if same_obj[0] != "skip" and fresh_obj[0] != "skip":
+                    h.ctx.count("same_object_resubstitutions")
+                    if h.signature(same_obj) != h.signature(fresh_obj):
+                        h.ctx.violation("operation_depends_on_object_identity:substitute", {
+                            "schema": repr(s)[:200], "value_now": enc(v), "same_object": repr(h.signature(same_obj))[:300],
+                            "fresh_equal_object": repr(h.signature(fresh_obj))[:300]})
         h.kinds.append("substitute")
         return operands, "substitute"
     if r < 0.66:
